@@ -987,6 +987,11 @@ func (s *runtimeState) loadAuth(compiled config.Compiled) error {
 	s.workerByRoute = workerByRoute
 	s.basicByRoute = basicByRoute
 	s.forwardByRoute = forwardByRoute
+	// Replay protection must survive a reload: the new authenticator of a
+	// route keeps the nonces its predecessor has already honoured.
+	for path, auth := range hmacByRoute {
+		auth.InheritNonces(s.hmacByRoute[path])
+	}
 	s.hmacByRoute = hmacByRoute
 	s.mu.Unlock()
 	return nil
